@@ -209,7 +209,18 @@ impl TypeCheckable for PreObjective {
         context: &mut TypeCheckerContext,
         fn_context: &FunctionContext,
     ) -> Result<(), TransformError> {
-        self.rhs.type_check(context, fn_context)
+        self.rhs.type_check(context, fn_context)?;
+        // like the two sides of a constraint, the objective is a numeric expression
+        // (a string / array / graph objective used to be accepted and fail in into_exp)
+        let rhs_type = self.rhs.get_type(context, fn_context);
+        if !rhs_type.is_numeric() && !rhs_type.is_any() {
+            return Err(TransformError::Other(format!(
+                "Expected an objective of type \"Number\", got \"{}\"",
+                rhs_type
+            ))
+            .add_span(self.rhs.span()));
+        }
+        Ok(())
     }
     fn populate_token_type_map(
         &self,
